@@ -34,7 +34,7 @@ def handleF0 : List Sexp → String
       match compileMain ss with
       | none => "unsupported"
       | some (bytes, rs, st) =>
-        let code := compSs 0 st
+        let code := Tengo.Model.F1.compSs 0 st
         let stop := csize code
         let cs : Nat → Value := fun k => (rs.consts[k]?.map constValue).getD .undef
         let s0 : St Value := { ip := 0, stack := [], g := fun _ => .undef }
